@@ -284,7 +284,13 @@ pub fn scenario(rng: &mut Rng, tier: Tier) -> Scenario {
         if i == 1 && !cfg.actions.iter().any(|a| matches!(a, ActionKind::Print0 | ActionKind::FPrint | ActionKind::FPrint0 | ActionKind::FPrintf | ActionKind::PrintfRaw)) {
             cfg.actions.push(ActionKind::FPrint);
         }
-        subjects.push(if rng.chance(1, 80) { gen::report_expression(rng) } else { gen::expression(rng, &cfg) });
+        subjects.push(if rng.chance(1, 80) {
+            gen::report_expression(rng)
+        } else if rng.chance(1, 150) {
+            gen::giant_expression(rng)
+        } else {
+            gen::expression(rng, &cfg)
+        });
     }
     // swarm: class mix per run; fault-free (no hostile) and hostile configurations both occur
     let mix = match rng.below(4) {
